@@ -292,6 +292,11 @@ class Node:
                     # from two separately rounded terms (absolute error 4u(|x_c|+|y_c|))
                     derr_delta = 2 * U * np.abs(ys - xs) if code_eps else 4 * U * (np.abs(xs) + np.abs(ys))
                     gts = dq * np.abs(ys - xs) + hmax * derr_delta + (kappa + 8) * U * np.abs(gs) + TINY
+                    if not code_eps and self.name in ("Matern32", "Matern52"):
+                        # autodiff of (poly(r)) e^{-r} subtracts two terms of size s phi(d): absolute error 16 u s phi(d)
+                        # on the coefficient (the hand-written k_grad has the cancellation done symbolically)
+                        s_ = (S3 if self.name == "Matern32" else S5) / self.ls
+                        gts = gts + 16 * U * s_ * abs(v) * np.abs(ys - xs) / dist
             g = gt = None
             if grad:
                 g = np.zeros(w)
@@ -340,15 +345,19 @@ class Node:
                     gs = np.full(ws, np.nan)
                     gts = np.full(ws, np.inf)
             else:
-                v = vl ** p
-                lo, hi = (vl - tl) ** p, (vl + tl) ** p
-                t = max(abs(lo - v), abs(hi - v)) + (64 + 2 * abs(p * math.log(vl))) * U * abs(v) + TINY
-                if grad:
-                    q = p * vl ** (p - 1)
-                    qlo, qhi = p * (vl - tl) ** (p - 1), p * (vl + tl) ** (p - 1)
-                    tq = max(abs(qlo - q), abs(qhi - q)) + (64 + 2 * abs((p - 1) * math.log(vl))) * U * abs(q)
-                    gs = q * gl
-                    gts = abs(q) * gtl + tq * np.abs(gl) + tq * gtl + 2 * U * np.abs(gs) + TINY
+                with np.errstate(all="ignore"):
+                    vl_, tl_ = np.float64(vl), np.float64(tl)
+                    v = float(vl_ ** p)
+                    lo, hi = float((vl_ - tl_) ** p), float((vl_ + tl_) ** p)
+                    t = max(abs(lo - v), abs(hi - v)) + (64 + 2 * abs(p * math.log(vl))) * U * abs(v) + TINY
+                    if grad:
+                        q = float(p * vl_ ** (p - 1))
+                        qlo, qhi = float(p * (vl_ - tl_) ** (p - 1)), float(p * (vl_ + tl_) ** (p - 1))
+                        tq = max(abs(qlo - q), abs(qhi - q)) + (64 + 2 * abs((p - 1) * math.log(vl))) * U * abs(q)
+                        gs = q * gl
+                        gts = abs(q) * gtl + tq * np.abs(gl) + tq * gtl + 2 * U * np.abs(gs) + TINY
+                if not np.isfinite(v) or not np.isfinite(t):
+                    ok = False
         else:
             raise ValueError(self.op)
         g = gt = None
@@ -494,7 +503,7 @@ def point_sets(rng, width, n=3):
 
 
 # ------------------------------------------------------------------ Interval goals, sharded
-CASE_HDR = ("From Coq Require Import Reals List ZArith.\nFrom Interval Require Import Tactic.\n"
+CASE_HDR = ("From Coq Require Import Reals List ZArith Lra Lia.\nFrom Interval Require Import Tactic.\n"
             "From MellonV Require Import %s.\nImport ListNotations.\nOpen Scope R_scope.\n")
 
 
